@@ -118,7 +118,8 @@ Case ==
                   \/ x = "bytes" /\ o.whole # ser
                   \/ x = "split" /\ ~(o.wrote_ok /\ o.bytes = o.whole)
                   \/ x = "accessors" /\ ~(o.cl = (IF r.hasCl THEN r.cl ELSE 0) /\ o.ctype = r.ctype /\ o.depr = r.depr
-                                          /\ o.v = r.v /\ o.body = (IF r.hasBody THEN r.body ELSE <<>>))
+                                          /\ o.v = r.v /\ o.body = (IF r.hasBody THEN r.body ELSE <<>>)
+                                          /\ o.allow = r.allow /\ o.status = r.code)
                   \/ x = "selfdelimiting" /\ ~SelfDelimits(r, o.whole)}
       [] ev.e = "router" ->
             LET rts == ev.routes
